@@ -523,7 +523,7 @@ public:
   //! Returns the last index of the given `value` or `SIZE_MAX` if it wasn't found.
   template<typename Value>
   ASMJIT_INLINE size_t last_index_of(Value&& value) const noexcept {
-    return as_span().index_of(std::forward<Value>(value));
+    return as_span().last_index_of(std::forward<Value>(value));
   }
 
   //! \}
